@@ -511,7 +511,7 @@ def run(sc: Dict[str, Any]) -> Dict[str, Any]:
     method, mode, fold, auto = sc["method"], sc["mode"], bool(sc.get("fold", False)), bool(sc.get("auto", True))
     hist = list(sc.get("hist", []))
     tr: Dict[str, Any] = {"arch": arch, "method": method, "mode": mode, "fold": fold, "auto": auto, "hist": hist,
-                          "conv_ok": False, "err": "", "errk": "", "O": [], "N": [], "E": [], "masks": [],
+                          "user_ok": True, "conv_ok": False, "err": "", "errk": "", "O": [], "OP": [], "dpl": -1, "N": [], "E": [], "masks": [],
                           "snopt0": [], "snopt1": [],
                           "u0": mode == "train", "w1": False, "s1": False, "u1": False, "kids": True,
                           "dw": -1, "du": -1, "sd_keys": True, "sd_vals": True, "attrs_changed": [], "attrs_changed_pl": 0, "attrs_added": 0,
@@ -520,10 +520,28 @@ def run(sc: Dict[str, Any]) -> Dict[str, Any]:
                           "w2": False, "s2": False}
     model, xs = build_user_model(arch, fold, int(sc.get("seed", 0)))
     model.train(mode == "train")
-    ref = copy.deepcopy(model).eval()
-    with torch.no_grad():
-        y0 = ref(*xs)                      # recorded BEFORE the conversion, on an independent copy
-    tr["O"], _ = project_graph(trace_plain(ref))
+    # the harness' own obligation (network = architecture) is checked on a twin without any plinio object in it
+    if any(n["pl"] for n in arch["nodes"]):
+        twin_arch = copy.deepcopy(arch)
+        for n in twin_arch["nodes"]:
+            n["pl"] = False
+        twin, _ = build_user_model(twin_arch, fold, int(sc.get("seed", 0)))
+    else:
+        twin = model
+    tr["O"], _ = project_graph(trace_plain(copy.deepcopy(twin).eval()))
+    try:
+        ref = copy.deepcopy(model).eval()
+        with torch.no_grad():
+            y0 = ref(*xs)                      # recorded BEFORE the conversion, on an independent copy
+        tr["OP"], _ = project_graph(trace_plain(ref))
+        if twin is not model:
+            with torch.no_grad():
+                tr["dpl"] = _rel(y0, twin.eval()(*xs))
+    except Exception as e:                     # only possible through a hand-placed PIT layer (the rest is plain torch)
+        tr["user_ok"], tr["err"] = False, "the user's model (with hand-placed PIT layers) cannot be traced / evaluated: " + _err(e)
+        if not any(n["pl"] for n in arch["nodes"]):
+            raise
+        return tr
     sd0 = copy.deepcopy(model.state_dict())
     at0 = attr_snapshot(model)
     # modules of the user's model that are (or live inside) PIT layers the user placed: search objects the wrapper is meant to
